@@ -201,6 +201,7 @@ def _get_aligned_axes(arrays, join='outer', axis=None , sort=False, strict=False
         ax = _common_axis([arrays[i].axes[d] for i in ii], join)
 
         if sort:
+            ax = ax.copy() # the common axis may be one of the inputs' own axes
             ax.sort()
 
         axes.append(ax)
